@@ -232,7 +232,7 @@ def run_pair(ctx, a, b, ct, cd, batch, pending, compare_model=True):
         try:
             mq, _, ops_q = S.produce(conn, mda, ct, cd, batch)
             pending.append(("quiet", inp, ops_q, None))
-            if batch and ct and cd:
+            if batch and ct is True and cd is True:
                 # the public entry point must report the same thing as produce_migrations().upgrade_ops.as_diffs()
                 import warnings as _w
                 from alembic.autogenerate import compare_metadata
@@ -295,7 +295,7 @@ def run_pair(ctx, a, b, ct, cd, batch, pending, compare_model=True):
             pending.append(("db", {**inp, "b": order_b(b, mdb)}, live_dump(conn), None))
         ctx.hist("pair.outcome", "ok" if not ops2 else "residual")
         if ops:
-            ctx.nontrivial((ct, cd, batch, repr(S.normalise_order(ops))))
+            ctx.nontrivial((repr(ct), repr(cd), batch, repr(S.normalise_order(ops))))
         return "ok"
     finally:
         conn.close()
@@ -308,9 +308,9 @@ def flush_pairs(ctx, pending):
         if kind in ("quiet", "converge"):
             reqs.append({"op": "diff.spec_quiet", "ops": ops})
         elif kind == "diff":
-            reqs.append({"op": "diff.diff", "a": inp["a"], "b": inp["b"], "ct": inp["ct"], "cd": inp["cd"]})
+            reqs.append({"op": "diff.diff", "a": inp["a"], "b": inp["b"], **S.cfg_json(inp["ct"], inp["cd"])})
         elif kind == "db":
-            reqs.append({"op": "diff.converge", "a": inp["a"], "b": inp["b"], "ct": inp["ct"], "cd": inp["cd"]})
+            reqs.append({"op": "diff.converge", "a": inp["a"], "b": inp["b"], **S.cfg_json(inp["ct"], inp["cd"])})
     ans = ctx.drv.ask(reqs)
     for (kind, inp, ops, extra), m in zip(pending, ans):
         if kind in ("quiet", "converge"):
@@ -377,8 +377,39 @@ def applicable(conn, a, desc):
     return True
 
 
-def run_mutation(ctx, a, desc, b, pending):
-    inp = {"a": a, "m": desc}
+def callable_setting(rng, schemas, p_false=0.2):
+    """a comparison callable as data: False ("treat as unchanged") on a random ~20% of the columns, None elsewhere"""
+    cols = sorted({(t["name"], c["name"]) for s in schemas for t in s["tables"] for c in t["cols"]})
+    return {"callable": [[t, c, False] for t, c in cols if rng.random() < p_false]}
+
+
+def mutation_settings(rng, a, b, desc):
+    """the configuration axis of C07: (compare_type, compare_server_default) as True or as callables.
+    Returns None when the callable itself suppresses the change (not applicable)."""
+    r = rng.random()
+    if r < 0.5:
+        return True, True
+    if r < 0.75:
+        return {"callable": []}, {"callable": []}          # callables that always defer (answer None)
+    ct, cd = callable_setting(rng, [a, b]), callable_setting(rng, [a, b])
+    for setting, kind in ((ct, "changeType"), (cd, "changeDefault")):
+        if desc["m"] == kind:
+            hit = [e for e in setting["callable"] if e[0] == desc["t"] and e[1] == desc["c"]]
+            if hit:
+                if rng.random() < 0.5:
+                    return None                                 # the user's callable says "unchanged": nothing to detect
+                hit[0][2] = True                                # ... or says "changed" (truthfully)
+    return ct, cd
+
+
+def run_mutation(ctx, a, desc, b, pending, rng=None):
+    settings = mutation_settings(rng, a, b, desc) if rng is not None else (True, True)
+    if settings is None:
+        ctx.hist("mut.outcome", "suppressed-by-callable:" + desc["m"])
+        return
+    ct, cd = settings
+    inp = {"a": a, "m": desc, "ct": ct, "cd": cd}
+    ctx.hist("mut.settings", "ct=%s cd=%s" % tuple("callable(%d verdicts)" % len(x["callable"]) if isinstance(x, dict) else x for x in (ct, cd)))
     mda, mdb = S.build_metadata(a), S.build_metadata(b)
     eng = S.new_engine()
     try:
@@ -391,7 +422,7 @@ def run_mutation(ctx, a, desc, b, pending):
             ctx.hist("mut.outcome", "not-applicable:" + desc["m"])
             return
         ctx.evaluation()
-        _, _, ops = S.produce(conn, mdb, True, True, True)
+        _, _, ops = S.produce(conn, mdb, ct, cd, True)
         ctx.hist("mut.kind", desc["m"])
         ctx.nontrivial((desc["m"], repr(S.normalise_order(ops))))
         pending.append((inp, {"tables": [t for t in order_b(b, mdb)["tables"]]}, ops))
@@ -404,7 +435,7 @@ def flush_mutations(ctx, pending):
     reqs = []
     for inp, b, ops in pending:
         reqs.append({"op": "diff.spec_detect", "a": inp["a"], "m": inp["m"], "ops": ops})
-        reqs.append({"op": "diff.diff", "a": inp["a"], "b": b, "ct": True, "cd": True})
+        reqs.append({"op": "diff.diff", "a": inp["a"], "b": b, **S.cfg_json(inp.get("ct", True), inp.get("cd", True))})
     ans = ctx.drv.ask(reqs)
     for i, (inp, b, ops) in enumerate(pending):
         s, m = ans[2 * i], ans[2 * i + 1]
